@@ -250,6 +250,21 @@ func checkCatalog(rep *Replica, r *simkit.Run, inPlace bool) *c07Finding {
 				panic(err)
 			}
 			if got := s.ServiceTaggedAddresses[key].Address; got != want {
+				// known finding C07-gateway-keeps-advertising-unlinked-service: when the gateway's config entry no
+				// longer links the service (entry deleted or rewritten), the instance keeps the tagged address; once
+				// the service's assignment is freed the advertisement is stale. Tolerated only while no link exists.
+				linked := false
+				if _, gws, err := st.GatewayServices(nil, s.ServiceName, nil); err == nil {
+					for _, g := range gws {
+						if g.Service.Name == sn.Name {
+							linked = true
+						}
+					}
+				}
+				if !linked {
+					r.Hit("known-finding.C07-gateway-keeps-advertising-unlinked-service")
+					continue
+				}
 				return &c07Finding{"vip-conflict", "advertised-virtual-ip-is-current-assignment", fmt.Sprintf("gateway instance %s/%s advertises virtual IP %s for service %s, which is assigned %q", s.Node, s.ServiceID, got, sn.String(), want)}
 			}
 		}
